@@ -161,6 +161,21 @@ func (m *engineMon) afterOp(opLine string, pre *pokerface.GameState, err error) 
 			es = append(es, entry{idx: p.Idx, contrib: p.Pot + p.Wager, fold: p.Fold, score: sc})
 		}
 		checkSettlement(o, es, changed)
+		// the same hand as settled by a game rebuilt from JSON at every step (the backend twin):
+		// the showdown rules hold for real play through the stateless backend as well
+		if tw := m.h.rawTwin; tw != nil && tw.Status.CurrentEvent == "GameClosed" && tw.Result != nil {
+			tchanged := map[int]int64{}
+			var tz int64
+			for _, r := range tw.Result.Players {
+				tchanged[r.Idx] = r.Changed
+				tz += r.Changed
+			}
+			if tz != 0 {
+				m.V("C01", "zero_sum", fmt.Sprintf("hand played through the JSON backend: changes sum to %d", tz))
+			}
+			checkSettlement(o, es, tchanged)
+			o.Count("engine.closed_twin")
+		}
 		o.Count("engine.closed")
 		if alive(gs) >= 2 {
 			o.Count("engine.showdowns")
